@@ -136,6 +136,16 @@ def families(tier, rng):
                  "⟨1|2⟩ƛ←q;,", "⟨1|2⟩'←q;L", "3ʁλ4$%;M,n,", "⟨0|0⟩'1$%;h,n,", "2(⟨1|0⟩ƛ3$%;,)n,", "4λ⟨1|0⟩'5$%;,;†n,"]:
         for fl in ("", "W", "O"):
             out.append((prog, fl, inp[0]))
+    #    ... and bodies that raise a TypeError (an element applied to a function) consumed through list(): Python's
+    #    length-hint protocol swallows a TypeError raised by __len__, the run "completed" with the list cut short and
+    #    the interrupted call's bookkeeping left behind (genuine defect, repaired: fix 806df82)
+    for prod in ["⟨1|λ_;⟩vN", "⟨3|λ1;|4⟩ƛN;", "1 λ_;W vN", "⟨2|λ1;⟩v›", "⟨λ1;⟩vN"]:
+        for cons in ["", "w,", "w…_", "w", "w:,_", ",", "L,", "wL,"]:
+            for fl in ("", "W"):
+                out.append((prod + cons, fl, inp[0]))
+    for st in MOD_STACKS[:4]:
+        for o in ["λ_;", "λ2|$-;", "λ3|_$-;", "λ1;"]:
+            out.append((st + "≬" + o + "WvN†", "W", inp[1]))
     for ctx in ["7λ3(n,□)5;†_ n,", "3(n,□)n,", "2(λ3(□);†)n,", "4λ1{□0};†n,", "2(3(□))n,", "5λ[1|□]2;†n,", "@f|3(□);@f;n,"]:
         for body in ["⁽›_X", "‡›d_X", "≬›dN_X", "⁽›_[1|X]", "⁽›_x", "⁽›†X", "‡+›_ 1[X]", "⁽›_", "X⁽›_"]:
             out.append((ctx.replace("□", body), rng.choice(["", "W"]), rng.choice(inp)))
